@@ -100,11 +100,11 @@ def merge_streams(outs):
 SPECS = {
     "C01": dict(modules=["Ovldverif.Props.C01"], streams=["fn", "fn_rich", "dep_f", "rewrite"], oracle="C01"),
     "C10": dict(modules=["Ovldverif.Props.C10"], streams=["dep_e", "dep_f", "dep_lit"], oracle="C10"),
-    "C11": dict(modules=["Ovldverif.Props.C11", "Ovldverif.Props.C10", "Ovldverif.Props.C15"], streams=["dep_e", "dep_f", "dep_lit", "annotations"], oracle="C11"),
+    "C11": dict(modules=["Ovldverif.Props.C11", "Ovldverif.Props.C11Comb", "Ovldverif.Props.C10", "Ovldverif.Props.C15"], streams=["dep_e", "dep_f", "dep_lit", "annotations"], oracle="C11"),
     "C02": dict(modules=["Ovldverif.Props.C02"], streams=["table_static", "fn_static", "levels"], oracle="C02"),
     "C03": dict(modules=["Ovldverif.Props.C03"], streams=["fn", "fn_static"], oracle="C03"),
     "C04": dict(modules=["Ovldverif.Props.C04"], streams=["table_static", "table_rich", "fn"], oracle="C04"),
-    "C05": dict(modules=["Ovldverif.Props.C05"], streams=["table_static", "table_rich", "fn"], oracle="C05"),
+    "C05": dict(modules=["Ovldverif.Props.C05"], streams=["table_static", "table_rich", "fn", "fn_types"], oracle="C05"),
     "C06": dict(modules=["Ovldverif.Props.C06"], streams=["table_static", "fn_static", "levels", "levels_rich"], oracle="C06"),
     "C07": dict(modules=["Ovldverif.Props.C07"], streams=["table_static", "fn_static", "levels"], oracle="C07"),
     "C20": dict(modules=["Ovldverif.Props.C20"], streams=["table_rich", "fn", "dep_f"], oracle="C20"),
